@@ -1,2 +1,88 @@
-(** Correspondence for C03 (legacy signature hash): see corr/SigHashCorr.v. *)
-From GoBT Require Export corr.SigHashCorr.
+(** Correspondence for C03 (legacy signature hash).
+
+    The value-level cases (CCalls, CVecLegacy) are those of corr/SigHashCorr.v, shared with C02.  C03 has one more
+    kind: [CHeap], the caller's transaction as an OBJECT GRAPH - a heap of script / input / output / transaction
+    cells as in model/SigHeap.v, read off the *bt.Tx the harness built (one cell per distinct Go pointer), so that
+    a *bscript.Script recorded on several inputs, one script object serving as previous script, unlocking script and
+    locking script at once, or one *bt.Input standing at several positions of tx.Inputs is ONE cell reached through
+    several pointers.  On such a case the pointer-level program [legacy_preimage_heap clone_deep] - the definition
+    C03_heap_model_refines_value_model and C03_legacy_never_writes_callers_cells are about - is evaluated on the
+    calls the harness made against the real CalcInputPreimageLegacy on that graph: outcome class, preimage length and
+    SHA-256 must agree call by call, no cell of the caller's heap may differ afterwards, and the value the caller's
+    pointer denotes must serialise to what the harness read back (ExtendedBytes) after the calls.
+
+    The case type below re-declares the two shared constructors under the same names (the generated shards refer to
+    constructors by name and import this file last), and maps them onto SigHashCorr's check unchanged. *)
+From Coq Require Import String List NArith Bool.
+From Coq Require Import Strings.Byte.
+From GoBT Require Import lib.Bytes lib.Hex lib.Parse lib.VarInt lib.Sha256 model.Tx model.SigHash corr.Corr.
+From GoBT Require Export corr.SigHashCorr model.SigHeap.
+Import ListNotations.
+Local Open Scope N_scope. Local Open Scope bool_scope.
+
+(** ** equality of cells (decides "the caller's cells are what they were") *)
+Definition onat_eqb (a b : option nat) : bool :=
+  match a, b with Some x, Some y => Nat.eqb x y | None, None => true | _, _ => false end.
+Fixpoint lnat_eqb (a b : list nat) : bool :=
+  match a, b with
+  | [], [] => true
+  | x :: a', y :: b' => Nat.eqb x y && lnat_eqb a' b'
+  | _, _ => false
+  end.
+Definition hcell_eqb (a b : hcell) : bool :=
+  match a, b with
+  | CScript x, CScript y => bytes_eqb x y
+  | CInput x, CInput y =>
+      bytes_eqb (ir_txid x) (ir_txid y) && (ir_sats x =? ir_sats y) && onat_eqb (ir_prev x) (ir_prev y) &&
+      onat_eqb (ir_unlock x) (ir_unlock y) && (ir_vout x =? ir_vout y) && (ir_seq x =? ir_seq y)
+  | COutput x, COutput y => (or_sats x =? or_sats y) && onat_eqb (or_lock x) (or_lock y)
+  | CTx x, CTx y => lnat_eqb (tr_ins x) (tr_ins y) && lnat_eqb (tr_outs x) (tr_outs y) &&
+                    (tr_ver x =? tr_ver y) && (tr_lock x =? tr_lock y)
+  | _, _ => false
+  end.
+Fixpoint heap_prefix_eqb (h h' : heap) : bool :=      (* every cell of h is the cell at the same address of h' *)
+  match h, h' with
+  | [], _ => true
+  | x :: r, y :: r' => hcell_eqb x y && heap_prefix_eqb r r'
+  | _ :: _, [] => false
+  end.
+
+(** one CalcInputPreimageLegacy call on the graph.  The cells the call allocated (its clone, the blank scripts) are
+    unreachable from the caller's pointer afterwards: the next call starts from the caller's cells again. *)
+Definition check_heap_call (h : heap) (p : addr) (c : call) : bool :=
+  let '(h', rp) := legacy_preimage_heap clone_deep h p (c_idx c) (c_ht c) in
+  (cls_of rp =? c_pre_cls c) &&
+  match rp with
+  | SOk b => (lenN b =? c_pre_len c) && sha_is b (c_pre_sha c)
+  | _ => true
+  end &&
+  heap_prefix_eqb h h'.
+
+Inductive case :=
+| CCalls (legacy : bool) (t : tx) (after_sha : string) (calls : list call)
+| CVecForkid (raw script : bytes) (idx ht : N) (expected : string)
+| CVecLegacy (raw script : bytes) (idx ht : N) (expected : string)
+| CHeap (h : heap) (p : addr) (after_sha : string) (calls : list call).
+
+Definition check (c : case) : bool :=
+  match c with
+  | CCalls legacy t after calls => SigHashCorr.check (SigHashCorr.CCalls legacy t after calls)
+  | CVecForkid raw script idx ht expected => SigHashCorr.check (SigHashCorr.CVecForkid raw script idx ht expected)
+  | CVecLegacy raw script idx ht expected => SigHashCorr.check (SigHashCorr.CVecLegacy raw script idx ht expected)
+  | CHeap h p after calls =>
+      forallb (check_heap_call h p) calls &&
+      match abs_tx h p with
+      | Some t => sha_is (tx_bytes true t) after
+      | None => false            (* the graph the harness wrote down is not a transaction: a harness defect *)
+      end
+  end.
+
+Definition mismatches := mismatches_with check.
+
+(** the shared cases mean exactly what they mean for C02 *)
+Lemma check_shared_calls legacy t after calls :
+  check (CCalls legacy t after calls) = SigHashCorr.check (SigHashCorr.CCalls legacy t after calls).
+Proof. reflexivity. Qed.
+Lemma check_shared_vec raw script idx ht expected :
+  check (CVecLegacy raw script idx ht expected) = SigHashCorr.check (SigHashCorr.CVecLegacy raw script idx ht expected).
+Proof. reflexivity. Qed.
